@@ -27,6 +27,9 @@ PLAN = [
     ("curve_intersection.f90", "bbox_intersect", "f90_bbox_intersect"),
     ("curve_intersection.f90", "segment_intersection", "f90_segment_intersection"),
     ("curve_intersection.f90", "parallel_lines_parameters", "f90_parallel_lines_parameters"),
+    ("helpers.f90", "solve2x2", "f90_solve2x2"),
+    ("curve_intersection.f90", "line_line_collide", "f90_line_line_collide"),
+    ("curve_intersection.f90", "bbox_line_intersect", "f90_bbox_line_intersect"),
 ]
 CONSTS = {"WIGGLE": "(VQ f90_helpers_WIGGLE)",
           "BoxIntersectionType_DISJOINT": '(VEnum "DISJOINT")', "BoxIntersectionType_TANGENT": '(VEnum "TANGENT")',
@@ -65,7 +68,7 @@ def find_routine(lines, name):
     raise Bad("routine %s not found" % name)
 
 
-TOK = re.compile(r"\s*(\d+\.\d*(?:_dp)?|\d+(?:_dp)?|\.[A-Za-z]+\.|<=|>=|==|/=|[-+*/()<>,]|[A-Za-z_][A-Za-z_0-9]*)")
+TOK = re.compile(r"\s*(\d+\.\d*(?:_dp)?|\d+(?:_dp)?|\.[A-Za-z]+\.|<=|>=|==|/=|[-+*/()<>,:]|[A-Za-z_][A-Za-z_0-9]*)")
 
 
 def tokenize(s):
@@ -249,6 +252,24 @@ class Tr:
                         raise Bad("%s: ieee_value" % self.name)
                     take(")")
                     return "VNaN"
+                if t in self.known and self.known[t][4] == "function":
+                    args = []
+                    while True:
+                        args.append(p_or())
+                        if peek() == ",":
+                            take(",")
+                            continue
+                        take(")")
+                        break
+                    return "(%s %s)" % (self.known[t][0], " ".join(args))
+                if t in self.arrays and peek() == ":":
+                    take(":")
+                    take(",")
+                    k = take()
+                    take(")")
+                    if not re.match(r"^\d+$", k) or t not in env:
+                        raise Bad("%s: section of %s" % (self.name, t))
+                    return "(vcol %s %d)" % (env[t], int(k) - 1)
                 if t in self.arrays:
                     idx = []
                     while True:
@@ -274,6 +295,10 @@ class Tr:
                 return CONSTS[t]
             if t in env:
                 return env[t]
+            if t in self.arrays and len(self.arrays[t]) == 1 and re.match(r"^\d+$", self.arrays[t][0]):
+                n = int(self.arrays[t][0])
+                if all((t, (i,)) in env for i in range(1, n + 1)):
+                    return "(VTup [%s])" % "; ".join(env[(t, (i,))] for i in range(1, n + 1))
             raise Bad("%s: %s read before assignment" % (self.name, t))
         out = p_or()
         if pos[0] != len(toks):
@@ -348,8 +373,19 @@ class Tr:
             callee = m.group(1)
             if callee not in self.known:
                 raise Bad("%s: call of untranslated %s" % (self.name, callee))
-            coqname, cargs, cins, couts = self.known[callee]
-            actual = [a.strip() for a in m.group(2).split(",")]
+            coqname, cargs, cins, couts, _kind = self.known[callee]
+            actual, depth_, cur_ = [], 0, ""
+            for ch in m.group(2):
+                if ch == "(":
+                    depth_ += 1
+                elif ch == ")":
+                    depth_ -= 1
+                if ch == "," and depth_ == 0:
+                    actual.append(cur_.strip())
+                    cur_ = ""
+                else:
+                    cur_ += ch
+            actual.append(cur_.strip())
             if len(actual) != len(cargs):
                 raise Bad("%s: arity of call to %s" % (self.name, callee))
             ins = [self.expr(tokenize(a), env) for a, f in zip(actual, cargs) if f in cins]
@@ -402,7 +438,7 @@ def generate():
             tr = Tr(rname, find_routine(texts[fname], rname), known)
             out.append("\n(* %s: %s(%s) -> (%s) *)\n" % (fname, rname, ", ".join(tr.ins), ", ".join(tr.outs)))
             out.append(tr.translate(coqname))
-            known[rname] = (coqname, tr.args, tr.ins, tr.outs)
+            known[rname] = (coqname, tr.args, tr.ins, tr.outs, tr.kind)
         except (Bad, OSError, AttributeError, IndexError, KeyError, ValueError) as exc:
             msg = str(exc).replace("*)", "* )").replace("(*", "( *")
             out.append("\n(* %s: UNTRANSLATABLE %s *)\nUntranslatable_%s.\n" % (rname, msg, rname))
